@@ -1,3 +1,45 @@
+// Generates one Rust function per program of the C24 / C25 / C26 families (each containing one
+// `dfir_syntax!` invocation) plus the lookup tables, into OUT_DIR/progs.rs.
+#[path = "src/family.rs"]
+mod family;
+
+use std::fmt::Write;
+
 fn main() {
     println!("cargo:rerun-if-changed=build.rs");
+    println!("cargo:rerun-if-changed=src/family.rs");
+    let out_dir = std::env::var("OUT_DIR").unwrap();
+    let mut code = String::new();
+    let table = |code: &mut String, tname: &str, rows: &[(String, String, String, usize)]| {
+        writeln!(code, "pub static {tname}: &[ProgEntry] = &[").unwrap();
+        for (name, f, text, nsrc) in rows {
+            writeln!(code, "    ProgEntry {{ name: {name:?}, text: r####\"{text}\"####, n_sources: {nsrc}, build: {f} }},").unwrap();
+        }
+        writeln!(code, "];\n").unwrap();
+    };
+    let mut rows = vec![];
+    for (i, g) in family::family_c24().iter().enumerate() {
+        let f = format!("p24_{i:03}");
+        let text = g.dfir_text();
+        code.push_str(&family::fn_text(&f, g.n_sources, &text));
+        rows.push((g.name.clone(), f, text, g.n_sources));
+    }
+    table(&mut code, "TABLE_C24", &rows);
+    let mut rows = vec![];
+    for (i, p) in family::family_c25().iter().enumerate() {
+        let f = format!("p25_{i:03}");
+        let text = p.dfir_text();
+        code.push_str(&family::fn_text(&f, p.n_sources(), &text));
+        rows.push((p.name.clone(), f, text, p.n_sources()));
+    }
+    table(&mut code, "TABLE_C25", &rows);
+    let mut rows = vec![];
+    for (i, g) in family::family_c26().iter().enumerate() {
+        let f = format!("p26_{i:03}");
+        let text = g.dfir_text();
+        code.push_str(&family::fn_text(&f, g.n_sources, &text));
+        rows.push((g.name.clone(), f, text, g.n_sources));
+    }
+    table(&mut code, "TABLE_C26", &rows);
+    std::fs::write(format!("{out_dir}/progs.rs"), code).unwrap();
 }
